@@ -16,6 +16,7 @@ import (
 	"io"
 	"math/big"
 	"reflect"
+	"runtime/debug"
 	"sort"
 	"strings"
 	"sync"
@@ -59,6 +60,7 @@ type Config struct {
 	TimerLate   int           // chance to hold back a node's due timers for a while
 	FaultUntil  time.Duration // faults stop after this simulated time (quiet phase follows)
 	WithStaking bool          // register the staking module on every chain (needed by C05)
+	Corrupt     int           // chance per sent frame to ALSO send a corrupted copy (the original still travels)
 }
 
 type nodeState struct {
@@ -89,18 +91,19 @@ const (
 )
 
 type entry struct {
-	seq    uint64
-	kind   entryKind
-	node   int
-	inc    int // node incarnation the entry belongs to (entries of dead incarnations are dropped)
-	at     time.Time
-	sub    *event.TypeMuxSubscription
-	subIdx int
-	ev     interface{}
-	data   []byte
-	block  *types.Block
-	from   int
-	desc   string
+	seq       uint64
+	kind      entryKind
+	node      int
+	inc       int // node incarnation the entry belongs to (entries of dead incarnations are dropped)
+	at        time.Time
+	sub       *event.TypeMuxSubscription
+	subIdx    int
+	ev        interface{}
+	data      []byte
+	block     *types.Block
+	from      int
+	desc      string
+	corrupted bool
 }
 
 // Sim is one simulated network.
@@ -142,6 +145,9 @@ type Monitor interface {
 	Restarted(s *Sim, node int)
 	// Step: after every simulator step.
 	Step(s *Sim)
+	// Captured: the batch of events a node posted on its mux during the last stimulus (before
+	// they are scheduled for delivery). Events posted in one stimulus have no order.
+	Captured(s *Sim, node int, evs []interface{})
 }
 
 // Now is the simulated time.
@@ -441,8 +447,11 @@ func (s *Sim) drainOutboxes() {
 		evs := ns.outbox
 		ns.outbox = nil
 		ns.obMu.Unlock()
-		if !ns.running {
+		if !ns.running || len(evs) == 0 {
 			continue
+		}
+		if s.Mon != nil {
+			s.Mon.Captured(s, ns.id, evs)
 		}
 		type keyed struct {
 			k  string
@@ -596,6 +605,11 @@ func (s *Sim) stimulus(ns *nodeState, what string, f func()) {
 			if _, ok := v.(critExit); ok {
 				v = nil
 			}
+			if v != nil {
+				if _, ok := v.(*kit.BubblePanic); !ok {
+					v = &kit.BubblePanic{Val: v, Stack: string(debug.Stack())}
+				}
+			}
 			done <- v
 		}()
 		f()
@@ -712,6 +726,11 @@ func (s *Sim) gossipFrame(ns *nodeState, me ucon.MessageEvent) {
 		}
 		delay := time.Duration(1+c.Intn("delay-ms", s.cfg.MaxDelayMs+1)) * time.Millisecond
 		s.enqueue(&entry{kind: eFrame, node: peer.id, at: time.Now().Add(delay), data: me.Payload, from: ns.id, desc: "frame " + me.Code})
+		if s.cfg.Corrupt > 0 && c.Chance("corrupt", s.cfg.Corrupt, 1000) {
+			bad, how := Mutate(c, me.Payload)
+			s.r.Fault("net.corrupt." + how)
+			s.enqueue(&entry{kind: eFrame, node: peer.id, at: time.Now().Add(delay), data: bad, from: ns.id, desc: "frame(corrupt:" + how + ") " + me.Code, corrupted: true})
+		}
 		if s.faultsOn() && s.cfg.DupFrame > 0 && c.Chance("dup", s.cfg.DupFrame, 1000) {
 			s.r.Fault("net.duplicate")
 			s.enqueue(&entry{kind: eFrame, node: peer.id, at: time.Now().Add(2 * delay), data: me.Payload, from: ns.id, desc: "frame(dup) " + me.Code})
@@ -721,10 +740,12 @@ func (s *Sim) gossipFrame(ns *nodeState, me ucon.MessageEvent) {
 
 func (s *Sim) deliverFrame(ns *nodeState, e *entry) {
 	h := crypto.Keccak256Hash(e.data)
-	if ns.seen[h] && !strings.Contains(e.desc, "dup") {
+	if ns.seen[h] && !strings.Contains(e.desc, "dup") && !e.corrupted {
 		return // ProtocolManager does not hand a known frame to the engine again
 	}
-	ns.seen[h] = true
+	if !e.corrupted {
+		ns.seen[h] = true
+	}
 	var herr error
 	s.r.FP(fmt.Sprintf("n%d", ns.id), "frame")
 	var pv interface{}
@@ -741,7 +762,7 @@ func (s *Sim) deliverFrame(ns *nodeState, e *entry) {
 	})
 	s.r.Logf("n%d recv %s %s from n%d -> err=%v", ns.id, e.desc, shortHash(h), e.from, herr)
 	if s.Mon != nil {
-		s.Mon.FrameHandled(s, ns.id, e.data, false, herr, pv)
+		s.Mon.FrameHandled(s, ns.id, e.data, e.corrupted, herr, pv)
 	}
 }
 
@@ -1000,3 +1021,66 @@ func (s *Sim) shutdown() {
 
 var _ = bytes.Equal
 var _ io.Reader
+
+// Mutate corrupts a frame the way a faulty or hostile network can: bit flips, truncation,
+// extension, length-prefix inflation (size-field attacks), non-minimal length encodings and
+// list/string confusion. It returns the corrupted bytes and the name of the mutation.
+func Mutate(c *kit.Chooser, data []byte) ([]byte, string) {
+	b := append([]byte{}, data...)
+	if len(b) == 0 {
+		return []byte{0xc0}, "empty"
+	}
+	if c.Chance("structured", 1, 2) {
+		if out, how, ok := MutateStructured(c, data); ok {
+			return out, "noncanonical-" + how
+		}
+	}
+	switch c.Intn("mutation", 8) {
+	case 0:
+		i := c.Intn("pos", len(b))
+		b[i] ^= 1 << uint(c.Intn("bit", 8))
+		return b, "bitflip"
+	case 1:
+		return b[:c.Intn("cut", len(b))], "truncate"
+	case 2:
+		return append(b, c.Bytes("extra", 1+c.Intn("n", 8))...), "extend"
+	case 3:
+		// inflate the outer length prefix: a list/string header announcing up to 2^63 bytes
+		hdr := []byte{0xff, 0x7f, 0xff, 0xff, 0xff, 0xff, 0xff, 0xff, 0xff}
+		if c.Chance("string", 1, 2) {
+			hdr[0] = 0xbf
+		}
+		return append(hdr, b[1:]...), "inflate-outer-length"
+	case 4:
+		// inflate an inner length prefix at a random position
+		i := c.Intn("pos", len(b))
+		hdr := []byte{0xbb, 0xff, 0xff, 0xff, 0xf0}
+		return append(append(append([]byte{}, b[:i]...), hdr...), b[i:]...), "inflate-inner-length"
+	case 5:
+		// non-minimal encoding: find a single byte < 0x80 and wrap it as 0x81 xx
+		for i := 1; i < len(b); i++ {
+			if b[i] < 0x80 && b[i] > 0 {
+				nb := append(append(append([]byte{}, b[:i]...), 0x81), b[i:]...)
+				return nb, "non-minimal-byte"
+			}
+		}
+		b[0] ^= 0x40
+		return b, "list-string-confusion"
+	case 6:
+		b[0] ^= 0x40 // 0xc0..0xff <-> 0x80..0xbf
+		return b, "list-string-confusion"
+	default:
+		// leading zero in an integer: insert 0x00 after a short-string header 0x81..0x88
+		for i := 1; i < len(b)-1; i++ {
+			if b[i] >= 0x81 && b[i] <= 0x87 {
+				nb := append([]byte{}, b[:i]...)
+				nb = append(nb, b[i]+1, 0x00)
+				nb = append(nb, b[i+1:]...)
+				return nb, "leading-zero-int"
+			}
+		}
+		i := c.Intn("pos", len(b))
+		b[i] = byte(c.Intn("byte", 256))
+		return b, "byte-set"
+	}
+}
